@@ -241,15 +241,21 @@ def check_preview_vs_execute(case, stats, add):
     conn.ensure_connection()
     raw = conn.connection
     try:
+        # like the executor, which suspends constraint checking while a
+        # table is rebuilt
+        raw.commit()
+        raw.execute('PRAGMA foreign_keys = OFF')
         for l in lines:
             raw.execute(l)
         raw.commit()
+        raw.execute('PRAGMA foreign_keys = ON')
         after_preview = (O.schema_dump('default', skip=skip),
                          O.row_dump('default', skip=skip))
     except Exception as e:
         after_preview = ('preview text does not run', str(e)[:200])
         try:
             raw.rollback()
+            raw.execute('PRAGMA foreign_keys = ON')
         except Exception:
             pass
     stats['effect_comparisons'] = stats.get('effect_comparisons', 0) + 1
